@@ -1,0 +1,93 @@
+//go:build verif
+
+package compile
+
+// Verification hooks for property C16 (position table).  Add-only; compiled
+// only with -tags verif.  They run the real encoder (fcomp.generate), the real
+// decoder (Funcode.decodeLNT) and the real lookup (Funcode.Position) on
+// caller-supplied data.
+
+import "go.starlark.net/syntax"
+
+// A VerifRow is one row of the position table: the pc of an instruction and
+// its source line and column.
+type VerifRow struct {
+	PC        uint32
+	Line, Col int32
+}
+
+// VerifEncodeLNT runs fcomp.generate on synthetic blocks and returns the
+// pclinetab it builds.  The function position is (line, col).
+//
+// With blockPerRow false, the rows must have strictly increasing pcs: a
+// single block of NOP instructions is built in which the instruction at
+// offset row.PC carries (row.Line, row.Col) and all others carry no position,
+// so that pcs are genuine code offsets.
+//
+// With blockPerRow true, one block is built per row, whose address is row.PC
+// and which holds a single NOP with the row's position; generate takes the pc
+// of a block's first instruction from block.addr, so arbitrary (equal,
+// decreasing, huge) pcs reach the delta encoder.
+func VerifEncodeLNT(line, col int32, rows []VerifRow, blockPerRow bool) (tab []uint16, code []byte) {
+	filename := "verif"
+	fn := &Funcode{Pos: syntax.MakePosition(&filename, line, col), Name: "verif"}
+	fcomp := &fcomp{fn: fn, pos: fn.Pos}
+	var blocks []*block
+	var codelen uint32
+	if blockPerRow {
+		for i, r := range rows {
+			b := &block{index: i, addr: r.PC}
+			b.insns = []insn{{op: NOP, line: r.Line, col: r.Col}}
+			blocks = append(blocks, b)
+			codelen++
+		}
+	} else {
+		b := &block{index: 0, addr: 0}
+		for _, r := range rows {
+			for uint32(len(b.insns)) < r.PC {
+				b.insns = append(b.insns, insn{op: NOP})
+			}
+			b.insns = append(b.insns, insn{op: NOP, line: r.Line, col: r.Col})
+		}
+		codelen = uint32(len(b.insns))
+		blocks = []*block{b}
+	}
+	fcomp.generate(blocks, codelen)
+	return fn.pclinetab, fn.Code
+}
+
+// VerifDecodeLNT runs Funcode.decodeLNT on the given table.
+func VerifDecodeLNT(line, col int32, tab []uint16) []VerifRow {
+	filename := "verif"
+	fn := &Funcode{Pos: syntax.MakePosition(&filename, line, col), pclinetab: tab}
+	fn.decodeLNT()
+	return verifRows(fn.lnt)
+}
+
+// VerifPositions runs Funcode.Position for each pc on a Funcode whose
+// pclinetab is tab.
+func VerifPositions(line, col int32, tab []uint16, pcs []uint32) []VerifRow {
+	filename := "verif"
+	fn := &Funcode{Pos: syntax.MakePosition(&filename, line, col), pclinetab: tab}
+	res := make([]VerifRow, len(pcs))
+	for i, pc := range pcs {
+		pos := fn.Position(pc)
+		res[i] = VerifRow{PC: pc, Line: pos.Line, Col: pos.Col}
+	}
+	return res
+}
+
+// VerifLNT returns the encoded and the decoded position table of a compiled
+// function.
+func VerifLNT(fn *Funcode) (tab []uint16, rows []VerifRow) {
+	fn.lntOnce.Do(fn.decodeLNT)
+	return fn.pclinetab, verifRows(fn.lnt)
+}
+
+func verifRows(lnt []pclinecol) []VerifRow {
+	rows := make([]VerifRow, len(lnt))
+	for i, e := range lnt {
+		rows[i] = VerifRow{PC: e.pc, Line: e.line, Col: e.col}
+	}
+	return rows
+}
